@@ -2588,6 +2588,7 @@ func ruleContextHeight(c *Ctx) {
 // server with a variadic state-root parameter, a call of the live contract-state accessor is control-dependent on
 // the absence of the root.
 func ruleHistoricResolvesHistoric(c *Ctx) {
+	mptSessionSameHeight(c)
 	n := 0
 	for _, fd := range c.P.AllFuncDecls() {
 		if fd.Decl.Body == nil || pkgRel(fd.Pkg.Types) != "pkg/services/rpcsrv" {
@@ -6515,6 +6516,47 @@ func ruleFreshUnderLock(c *Ctx, pkgs ...string) {
 		})
 		key := "fresh-under-lock." + FuncKey(fd.Obj)
 		bad := ""
+		// check-then-lock: an if *before* the Lock() that asks a locked accessor of the receiver and leaves the function
+		// on the answer has decided on a snapshot; the decision has to be made again under the lock
+		ast.Inspect(fd.Decl.Body, func(x ast.Node) bool {
+			is, ok := x.(*ast.IfStmt)
+			if !ok || is.Pos() > lockPos || len(is.Body.List) == 0 {
+				return true
+			}
+			if _, isRet := is.Body.List[len(is.Body.List)-1].(*ast.ReturnStmt); !isRet {
+				return true
+			}
+			acc := ""
+			ast.Inspect(is.Cond, func(y ast.Node) bool {
+				if ce, ok := y.(*ast.CallExpr); ok {
+					if sel, ok := ce.Fun.(*ast.SelectorExpr); ok {
+						if rid, ok := ast.Unparen(sel.X).(*ast.Ident); ok && info.ObjectOf(rid) == recv {
+							if mfn, isFn := info.ObjectOf(sel.Sel).(*types.Func); isFn && takesOwnLock(c, mfn) {
+								acc = sel.Sel.Name
+							}
+						}
+					}
+				}
+				return true
+			})
+			if acc == "" {
+				return true
+			}
+			// is the same question asked again after the lock (the unlocked twin: containsKey for ContainsKey)?
+			again := false
+			ast.Inspect(fd.Decl.Body, func(y ast.Node) bool {
+				if ce, ok := y.(*ast.CallExpr); ok && ce.Pos() > lockPos {
+					if sel, ok := ce.Fun.(*ast.SelectorExpr); ok && strings.EqualFold(sel.Sel.Name, acc) {
+						again = true
+					}
+				}
+				return true
+			})
+			if !again {
+				bad = fmt.Sprintf("the test of %s() at %s is made before the lock is taken and not repeated under it", acc, c.P.Pos(is.Pos()))
+			}
+			return true
+		})
 		ast.Inspect(fd.Decl.Body, func(x ast.Node) bool {
 			var cond ast.Expr
 			switch s := x.(type) {
@@ -7078,5 +7120,283 @@ func atomicStage(c *Ctx) {
 			return true
 		})
 		c.Floor("stage clauses of "+name, n, 3)
+	}
+}
+
+// ---------------------------------------------------------------------------
+// ordered-slice-stable (C08, C13) - two slices of the node are ordered and observed in order: the pool's
+// verifiedTxes (priority order: binary search on insertion, eviction of the tail) and the element slice of a
+// stackitem.Map (insertion order: KEYS, VALUES, UNPACK, iteration, serialisation). Taking an element out has to close
+// the gap by shifting; the O(1) idiom for unordered slices - move the last element into the hole - leaves a slice the
+// binary search and the enumeration are wrong about. No element of these slices is assigned another element of the
+// same slice.
+func ruleOrderedSliceStable(c *Ctx) {
+	targets := []struct{ pkg, field, what string }{
+		{"pkg/core/mempool", "verifiedTxes", "the pool's priority-ordered list"},
+		{"pkg/vm/stackitem", "value", "the insertion-ordered elements of a Map"},
+	}
+	n := 0
+	for _, tg := range targets {
+		pk := c.P.Pkg(tg.pkg)
+		if pk == nil {
+			c.Lost("ordered-slice-stable."+tg.field+".anchor", "package "+tg.pkg+" not found")
+			continue
+		}
+		info := pk.TypesInfo
+		isField := func(e ast.Expr) bool {
+			sel, ok := ast.Unparen(e).(*ast.SelectorExpr)
+			if !ok || sel.Sel.Name != tg.field {
+				return false
+			}
+			v, ok := info.ObjectOf(sel.Sel).(*types.Var)
+			return ok && v.IsField()
+		}
+		for _, fd := range c.P.AllFuncDecls() {
+			if fd.Pkg != pk || fd.Decl.Body == nil {
+				continue
+			}
+			// for stackitem.value restrict to methods of Map
+			if tg.pkg == "pkg/vm/stackitem" {
+				if fd.Decl.Recv == nil || !namedTypeIsPtr(fd.Obj.Type().(*types.Signature).Recv().Type(), "github.com/nspcc-dev/neo-go/pkg/vm/stackitem", "Map") {
+					continue
+				}
+			}
+			k := 0
+			ast.Inspect(fd.Decl.Body, func(x ast.Node) bool {
+				as, ok := x.(*ast.AssignStmt)
+				if !ok {
+					return true
+				}
+				for i, l := range as.Lhs {
+					ix, ok := ast.Unparen(l).(*ast.IndexExpr)
+					if !ok || !isField(ix.X) || i >= len(as.Rhs) {
+						continue
+					}
+					n++
+					k++
+					key := fmt.Sprintf("ordered-slice-stable.%s.%s#%d", tg.field, FuncKey(fd.Obj), k)
+					moves := false
+					ast.Inspect(as.Rhs[i], func(y ast.Node) bool {
+						if rx, ok := y.(*ast.IndexExpr); ok && isField(rx.X) {
+							moves = true
+						}
+						return true
+					})
+					if moves {
+						c.Fail(key, c.P.Pos(as.Pos()), fmt.Sprintf("%s moves an element of %s into another position of the same slice (%s): the gap of a removed element has to be closed by shifting, or the order the slice is read in (binary search and tail eviction; KEYS/VALUES/UNPACK) no longer holds", FuncKey(fd.Obj), tg.what, trunc(types.ExprString(as.Rhs[i]), 60)))
+					} else {
+						c.OK(key, c.P.Pos(as.Pos()), "stores a new element, does not move an existing one")
+					}
+				}
+				return true
+			})
+		}
+	}
+	c.Floor("element stores into the ordered slices", n, 2)
+}
+
+// ---------------------------------------------------------------------------
+// copy-resets-caches (C17) - Transaction caches what is expensive to compute: hash, size. A copy that is going to be
+// changed (the Notary service completes the witnesses of a copy) must not inherit them. The cache fields are not
+// tabled: they are the fields the zero-argument getters Hash() and Size() (and what they call on the same type)
+// assign. Copy() assigns each of them its zero value.
+func ruleCopyResetsCaches(c *Ctx) {
+	pk := c.P.Pkg("pkg/core/transaction")
+	cp := c.P.Func("pkg/core/transaction", "Transaction", "Copy")
+	if pk == nil || cp == nil {
+		c.Lost("copy-resets-caches.anchor", "transaction.(*Transaction).Copy not found")
+		return
+	}
+	info := pk.TypesInfo
+	// fields written by Hash/Size and the methods of Transaction they call
+	cache := map[types.Object]string{}
+	seen := map[*FuncDecl]bool{}
+	var collect func(fd *FuncDecl, via string)
+	collect = func(fd *FuncDecl, via string) {
+		if fd == nil || fd.Decl.Body == nil || seen[fd] {
+			return
+		}
+		seen[fd] = true
+		if fd.Decl.Recv == nil || len(fd.Decl.Recv.List[0].Names) == 0 {
+			return
+		}
+		recv := info.ObjectOf(fd.Decl.Recv.List[0].Names[0])
+		ast.Inspect(fd.Decl.Body, func(x ast.Node) bool {
+			switch s := x.(type) {
+			case *ast.AssignStmt:
+				for _, l := range s.Lhs {
+					if sel, ok := ast.Unparen(l).(*ast.SelectorExpr); ok {
+						if id, ok := ast.Unparen(sel.X).(*ast.Ident); ok && info.ObjectOf(id) == recv {
+							if v, ok := info.ObjectOf(sel.Sel).(*types.Var); ok && v.IsField() {
+								cache[v] = via
+							}
+						}
+					}
+				}
+			case *ast.CallExpr:
+				if sel, ok := s.Fun.(*ast.SelectorExpr); ok {
+					if id, ok := ast.Unparen(sel.X).(*ast.Ident); ok && info.ObjectOf(id) == recv {
+						if fn, ok := info.ObjectOf(sel.Sel).(*types.Func); ok {
+							collect(c.P.DeclOf(fn), via)
+						}
+					}
+				}
+			}
+			return true
+		})
+	}
+	for _, g := range []string{"Hash", "Size"} {
+		collect(c.P.Func("pkg/core/transaction", "Transaction", g), g+"()")
+	}
+	if len(cache) < 2 {
+		c.Lost("copy-resets-caches.fields", fmt.Sprintf("only %d cache fields found behind Transaction.Hash()/Size()", len(cache)))
+		return
+	}
+	// resets in Copy: cpVar.f = zero
+	reset := map[types.Object]bool{}
+	ast.Inspect(cp.Decl.Body, func(x ast.Node) bool {
+		as, ok := x.(*ast.AssignStmt)
+		if !ok {
+			return true
+		}
+		for i, l := range as.Lhs {
+			sel, ok := ast.Unparen(l).(*ast.SelectorExpr)
+			if !ok || i >= len(as.Rhs) {
+				continue
+			}
+			v, ok := info.ObjectOf(sel.Sel).(*types.Var)
+			if !ok || !v.IsField() {
+				continue
+			}
+			if tv := info.Types[as.Rhs[i]]; tv.Value != nil && (tv.Value.String() == "0" || tv.Value.String() == "false") {
+				reset[v] = true
+			} else if cl, ok := ast.Unparen(as.Rhs[i]).(*ast.CompositeLit); ok && len(cl.Elts) == 0 {
+				reset[v] = true
+			}
+		}
+		return true
+	})
+	var fields []types.Object
+	for f := range cache {
+		fields = append(fields, f)
+	}
+	sort.Slice(fields, func(i, j int) bool { return fields[i].Name() < fields[j].Name() })
+	for _, fl := range fields {
+		key := "copy-resets-caches." + fl.Name()
+		// a validity flag makes the value it guards harmless: hash is guarded by hashed
+		if reset[fl] {
+			c.OK(key, c.P.Pos(cp.Decl.Pos()), "reset by Copy()")
+		} else if guardedByResetFlag(info, cache, reset, fl) {
+			c.OK(key, c.P.Pos(cp.Decl.Pos()), "not reset itself, but the boolean that says it is valid is")
+		} else {
+			c.Fail(key, c.P.Pos(cp.Decl.Pos()), fmt.Sprintf("Transaction.Copy does not reset the cache field %s (filled by %s): a copy that is changed afterwards - the Notary service completes the witnesses of a copy of the main transaction - goes on reporting the original's value, which feeds the size limit, the fee-per-byte check, pool ordering and block-size accounting", fl.Name(), cache[fl]))
+		}
+	}
+	c.Floor("cache fields of Transaction", len(fields), 2)
+}
+
+// guardedByResetFlag: a cache value whose validity is a boolean cache field that Copy resets (hash / hashed).
+func guardedByResetFlag(info *types.Info, cache map[types.Object]string, reset map[types.Object]bool, fl types.Object) bool {
+	for f := range cache {
+		if b, ok := f.Type().Underlying().(*types.Basic); ok && b.Kind() == types.Bool && reset[f] && strings.HasPrefix(f.Name(), fl.Name()) {
+			return true
+		}
+	}
+	return false
+}
+
+// mptSessionSameHeight (historic-resolves-historic, C03): with SessionBackedByMPT an invocation that returns an
+// iterator is run a second time over the trie, so that the session can be served later without keeping the store
+// alive. The second run has to be made for the same block as the first - the index of the fake next block the first
+// context carries - or the iterator is answered from the state of another height.
+func mptSessionSameHeight(c *Ctx) {
+	fd := c.P.Func("pkg/services/rpcsrv", "Server", "runScriptInVM")
+	if fd == nil {
+		c.Lost("mpt-session-same-height.anchor", "rpcsrv.(*Server).runScriptInVM not found")
+		return
+	}
+	f := c.P.NewFuncCFG(fd)
+	n, bad := 0, token.NoPos
+	for _, s := range f.CallSites("pkg/services/rpcsrv.(*Server).runScriptInVM") {
+		// the recursive call: its height argument (pointer to uint32)
+		for _, a := range s.call.Args {
+			if p, ok := f.Info.TypeOf(a).(*types.Pointer); ok {
+				if b, ok := p.Elem().Underlying().(*types.Basic); ok && b.Kind() == types.Uint32 {
+					n++
+					if !f.DirectMentions(a)[fldBlockIndex] {
+						bad = s.call.Pos()
+					}
+				}
+			}
+		}
+	}
+	switch {
+	case n == 0:
+		c.Note("mpt-session-same-height: runScriptInVM no longer reruns itself over MPT-backed storage")
+	case bad.IsValid():
+		c.Fail("mpt-session-same-height", c.P.Pos(bad), "the rerun of an invocation over MPT-backed storage (sessions with iterators) is not made for the index of the block the first run was made for: the iterator is answered from the state of another height than the invocation it belongs to")
+	default:
+		c.OK("mpt-session-same-height", c.P.Pos(fd.Decl.Pos()), "the rerun over MPT-backed storage uses the block index of the first run's context")
+	}
+}
+
+// bufferByteRange (limit-guards, C13): SETITEM on a Buffer accepts what fits a byte read either way - signed or
+// unsigned: -128..255 - and stores the low eight bits; the two constants of the guard are the specification's.
+func bufferByteRange(c *Ctx) {
+	fd := c.P.Func("pkg/vm", "VM", "execute")
+	if fd == nil {
+		return
+	}
+	f := c.P.NewFuncCFG(fd)
+	info := f.Info
+	found, ok2 := false, false
+	ast.Inspect(fd.Decl.Body, func(x ast.Node) bool {
+		cc, ok := x.(*ast.CaseClause)
+		if !ok || len(cc.List) == 0 {
+			return true
+		}
+		// the type-switch arm for *stackitem.Buffer inside SETITEM
+		isBuf := false
+		for _, e := range cc.List {
+			if tv := info.Types[e]; tv.IsType() && namedTypeIsPtr(tv.Type, "github.com/nspcc-dev/neo-go/pkg/vm/stackitem", "Buffer") {
+				isBuf = true
+			}
+		}
+		if !isBuf || enclosingOpcodeArm(c, fd, cc.Pos()) != "SETITEM" {
+			return true
+		}
+		found = true
+		lo, hi := false, false
+		for _, st := range cc.Body {
+			ast.Inspect(st, func(y ast.Node) bool {
+				be, ok := y.(*ast.BinaryExpr)
+				if !ok {
+					return true
+				}
+				for _, side := range []ast.Expr{be.X, be.Y} {
+					if tv := info.Types[side]; tv.Value != nil {
+						if v, ok := constant.Int64Val(constant.ToInt(tv.Value)); ok {
+							if v == -128 && (be.Op == token.LSS || be.Op == token.GTR) {
+								lo = true
+							}
+							if v == 255 && (be.Op == token.LSS || be.Op == token.GTR) {
+								hi = true
+							}
+						}
+					}
+				}
+				return true
+			})
+		}
+		ok2 = lo && hi
+		return false
+	})
+	switch {
+	case !found:
+		c.Lost("buffer-byte-range.arm", "the Buffer arm of SETITEM was not found")
+	case ok2:
+		c.OK("buffer-byte-range", c.P.Pos(fd.Decl.Pos()), "SETITEM on a Buffer accepts -128..255")
+	default:
+		c.Fail("buffer-byte-range", c.P.Pos(fd.Decl.Pos()), "the range test of SETITEM on a Buffer is no longer `< -128 || > 255`: the specification accepts a byte read either way (signed or unsigned) and stores its low eight bits, so values of -128..-1 must not fault (and nothing outside -128..255 may pass)")
 	}
 }
